@@ -578,7 +578,7 @@ def run_check(specs, engines, prop, tier, seed, keep=False, only_jobs=None):
             json.dump({'property': p, 'key': k, 'occurrences': len(vs), 'check': prop, 'tier': tier,
                        'violation': v, 'replay': './vcheck replay ' + path}, f, indent=1)
         print('VIOLATION property=%s replay=%s' % (p, path))
-        d = v.get('detail', '')
+        d = ''.join(ch if (ch >= ' ' or ch == '\n') else '\\x%02x' % ord(ch) for ch in v.get('detail', ''))   # keep the terminal and grep happy
         print('  key=%s occurrences=%d case=%s\n  %s' % (k, len(vs), v.get('case'), d[:700].replace('\n', '\n  ')))
         rc = 1
     if rc == 0 and inconclusive:
